@@ -15,6 +15,10 @@
 //   shift, additive, multiplicative, unary -, !, ~, cast, call).  The truth is computed from the explicitly
 //   parenthesised value `(EXPR)` evaluated in a separate statement, so a macro that forgets the parentheses around one
 //   of its parameters evaluates a different relation and is caught.
+// Part "sideeffects": operands with side effects (counter call, x++, --x, counting functor, immediately invoked lambda,
+//   StringReader::get_u8) as first / second operand of every macro: evaluated exactly once, verdict from that evaluation.
+// Part "predicates": expect()/expect_msg() with non-bool predicates (double/float/long double fractions, denormals, NaN,
+//   huge values, __int128 with zero low 64 bits, 64-bit values with zero low 32 bits, pointers, enums, implicit-bool class).
 // Call CONTEXTS: every cell of every part is executed in five contexts, rotating per repetition — direct; inside a
 //   catch handler of an unrelated exception; inside a destructor on normal scope exit; inside a destructor that runs
 //   while an unrelated exception unwinds the stack (the expectation failure is caught locally inside the destructor, so
@@ -124,6 +128,7 @@ static void new_cell() {
 static string vkey(Context cx, const string& opname, const string& tname, const char* kind) {
   if (cx == CX_DIRECT) cell_direct_bad = true;
   else if (cell_direct_bad) cx = CX_DIRECT;
+  if (cx == CX_DIRECT && tname.compare(0, 19, "operand-evaluation:") == 0) return fmt("%s:%s", tname.c_str(), kind);
   if (cx == CX_DIRECT && tname.compare(0, 14, "operand-shape:") == 0) return fmt("%s:%s", tname.c_str(), kind);  // macro name is in the case text
   if (cx == CX_DIRECT) return tname.empty() ? fmt("%s:%s", opname.c_str(), kind) : fmt("%s:%s:%s", opname.c_str(), tname.c_str(), kind);
   return fmt("context:%s:%s:%s", CTX_NAME[cx], opname.compare(0, 13, "expect_raises") == 0 ? "expect_raises" : "relation", kind);
@@ -274,6 +279,201 @@ static void relations_suite() {
       }
       C->cls(fmt("rel:expect_msg:%s:%s", m == 1 ? "empty-text" : m == 2 ? "format-chars" : "text", v ? "holds" : "fails"));
     }
+}
+
+// --------------------------------------------------------------------------------------------------------
+// operands with SIDE EFFECTS: each operand expression must be evaluated exactly once, whether the relation holds or not,
+// and the verdict must follow that (first and only) evaluation.
+
+struct SideState {
+  int counter = 0;      // st.next() returns 1, then 2, ...
+  int x = 5;            // st.x++ yields 5 then 6; --st.x yields 4 then 3
+  int functor_calls = 0;
+  int other_calls = 0;  // evaluations of the plain operand
+  int k = 0;            // value of the plain operand
+  string data = string("\x01\x02\x03\x04", 4);
+  phosg::StringReader rd{data};
+  int next() { return ++counter; }
+  int functor() { functor_calls++; return 7; }
+  int other() { other_calls++; return k; }
+};
+
+#define SIDE_SITE(STMT) try { o.site_line = __LINE__; STMT; } CATCH_INTO(o, true) break;
+
+// EXPR mentions `st`; FIRST/SECOND = the values its first and second evaluation yield from a fresh SideState;
+// EVALS = expression over st giving how often EXPR has been evaluated.
+#define DEF_SIDE(NAME, EXPR, FIRST, SECOND, EVALS)                                        \
+  static Outcome side_call_##NAME(int site, SideState& st) {                              \
+    Outcome o;                                                                            \
+    switch (site) {                                                                       \
+      case 0: SIDE_SITE(expect_eq(EXPR, st.other()))                                      \
+      case 1: SIDE_SITE(expect_eq(st.other(), EXPR))                                      \
+      case 2: SIDE_SITE(expect_ne(EXPR, st.other()))                                      \
+      case 3: SIDE_SITE(expect_ne(st.other(), EXPR))                                      \
+      case 4: SIDE_SITE(expect_gt(EXPR, st.other()))                                      \
+      case 5: SIDE_SITE(expect_gt(st.other(), EXPR))                                      \
+      case 6: SIDE_SITE(expect_ge(EXPR, st.other()))                                      \
+      case 7: SIDE_SITE(expect_ge(st.other(), EXPR))                                      \
+      case 8: SIDE_SITE(expect_lt(EXPR, st.other()))                                      \
+      case 9: SIDE_SITE(expect_lt(st.other(), EXPR))                                      \
+      case 10: SIDE_SITE(expect_le(EXPR, st.other()))                                     \
+      case 11: SIDE_SITE(expect_le(st.other(), EXPR))                                     \
+      case 12: SIDE_SITE(expect(EXPR == st.other()))                                      \
+      case 13: SIDE_SITE(expect_msg(st.other() == EXPR, "message of a side-effect cell")) \
+    }                                                                                     \
+    return o;                                                                             \
+  }                                                                                       \
+  static int side_evals_##NAME(const SideState& st) { return (EVALS); }                   \
+  static const int side_first_##NAME = (FIRST), side_second_##NAME = (SECOND);           \
+  static const char* side_text_##NAME = #EXPR;
+
+DEF_SIDE(counter_call, st.next(), 1, 2, st.counter)
+DEF_SIDE(post_increment, st.x++, 5, 6, st.x - 5)
+DEF_SIDE(pre_decrement, --st.x, 4, 3, 5 - st.x)
+DEF_SIDE(counting_functor, st.functor(), 7, 7, st.functor_calls)
+DEF_SIDE(invoked_lambda, [&st]() { return st.counter += 3; }(), 3, 6, st.counter / 3)
+DEF_SIDE(reader_get_u8, st.rd.get_u8(), 1, 2, (int)st.rd.where())
+
+struct SideDef {
+  const char* name;
+  const char* const* text;
+  Outcome (*call)(int, SideState&);
+  int (*evals)(const SideState&);
+  int first, second;
+};
+#define SIDE_ENTRY(NAME) {#NAME, &side_text_##NAME, side_call_##NAME, side_evals_##NAME, side_first_##NAME, side_second_##NAME}
+static const SideDef SIDES[] = {SIDE_ENTRY(counter_call), SIDE_ENTRY(post_increment), SIDE_ENTRY(pre_decrement), SIDE_ENTRY(counting_functor), SIDE_ENTRY(invoked_lambda),
+    SIDE_ENTRY(reader_get_u8)};
+
+static void sideeffects_suite() {
+  static const char* SITE_MACRO[14] = {"expect_eq", "expect_eq", "expect_ne", "expect_ne", "expect_gt", "expect_gt", "expect_ge", "expect_ge", "expect_lt", "expect_lt",
+      "expect_le", "expect_le", "expect", "expect_msg"};
+  const int side_reps = REPS >= 400 ? 40 : 4;
+  for (const SideDef& sd : SIDES)
+    for (int site = 0; site < 14; site++) {
+      if (!C->mine(cell_idx++)) continue;
+      // is the side-effect expression the first (left) or the second operand at this site?
+      bool expr_first = site < 12 ? (site % 2 == 0) : site == 12;
+      const char* posname = expr_first ? "first" : "second";
+      uint64_t n = 0;
+      for (int rep = 0; rep < side_reps; rep++)
+        for (int k : {sd.first - 1, sd.first, sd.first + 1, sd.second, sd.second + 1, sd.second - 1}) {
+          // stated relation on the FIRST evaluation of the expression
+          int lhs = expr_first ? sd.first : k, rhs = expr_first ? k : sd.first;
+          bool t = site >= 12 ? lhs == rhs : truth((Rel)(site / 2), lhs, rhs, false);
+          new_cell();
+          for (Context cx : {CX_DIRECT, CTX_SCHED[(n++) % 8]}) {
+            if (cx == CX_DIRECT && !cell_direct.empty()) break;
+            SideState st;
+            st.k = k;
+            Outcome o = in_context(cx, [&]() { return sd.call(site, st); });
+            string kase = fmt("%s with operand `%s` (%s operand; first evaluation yields %d, a second one %d) and other operand %d", SITE_MACRO[site], *sd.text, posname, sd.first,
+                sd.second, k);
+            if (n == 1) C->crumb_s(kase);
+            judge(cx, SITE_MACRO[site], fmt("operand-evaluation:%s:%s", sd.name, posname), t, o, kase, nullptr, nullptr, site == 13 ? "message of a side-effect cell" : nullptr);
+            int ev = sd.evals(st);
+            if (ev != 1)
+              C->violation(vkey(cx, SITE_MACRO[site], fmt("operand-evaluation:%s:%s", sd.name, posname), ev == 0 ? "not-evaluated" : "evaluated-more-than-once"),
+                  fmt("the operand expression was evaluated %d times (relation %s)", ev, t ? "holds" : "fails"), kase);
+            if (st.other_calls != 1)
+              C->violation(vkey(cx, SITE_MACRO[site], fmt("operand-evaluation:%s:%s", sd.name, posname), "other-operand-evaluation-count"),
+                  fmt("the other operand was evaluated %d times (relation %s)", st.other_calls, t ? "holds" : "fails"), kase);
+            C->cls(fmt("side:%s:%s:%s", sd.name, posname, t ? "holds" : "fails"));
+          }
+        }
+      C->cls(fmt("side-macro:%s:%s", SITE_MACRO[site], posname));
+    }
+}
+
+// --------------------------------------------------------------------------------------------------------
+// expect(pred) / expect_msg(pred, text) with NON-BOOL predicates: the verdict is the predicate's own conversion to
+// bool (non-zero / non-null = true; NaN is non-zero), whatever its type.
+
+template <typename T>
+static Outcome pred_expect(const T& pred_value) {
+  Outcome o;
+  try { o.site_line = __LINE__; expect(pred_value); } CATCH_INTO(o, true)
+  return o;
+}
+template <typename T>
+static Outcome pred_expect_msg(const T& pred_value) {
+  Outcome o;
+  try { o.site_line = __LINE__; expect_msg(pred_value, "non-bool predicate"); } CATCH_INTO(o, true)
+  return o;
+}
+
+enum PlainEnum { PE_ZERO = 0, PE_TWO = 2, PE_BIG = 0x40000000 };
+struct ImplicitBool {  // optional-like type with a NON-explicit conversion (an explicit one does not compile with the macros)
+  bool engaged;
+  operator bool() const { return engaged; }
+};
+
+template <typename T>
+static void predicate_cell(const char* tname, const char* label, const T& v, bool truthy) {
+  if (!C->mine(cell_idx++)) return;
+  string kase = fmt("expect(%s) / expect_msg(%s, ...) with a predicate of type %s", label, label, tname);
+  C->crumb_s(kase);
+  new_cell();
+  for (int rep = 0; rep < REPS; rep++) {
+    Context cx = CTX_SCHED[rep % 8];
+    judge(cx, "expect", fmt("predicate-%s", tname), truthy, in_context(cx, [&]() { return pred_expect<T>(v); }), kase, "pred_value", nullptr, nullptr);
+    judge(cx, "expect_msg", fmt("predicate-%s", tname), truthy, in_context(cx, [&]() { return pred_expect_msg<T>(v); }), kase, nullptr, nullptr, "non-bool predicate");
+  }
+  C->cls(fmt("pred:%s:%s", tname, truthy ? "truthy" : "falsy"));
+}
+
+static void predicates_suite() {
+  predicate_cell<double>("double", "0.5", 0.5, true);
+  predicate_cell<double>("double", "0.999999", 0.999999, true);
+  predicate_cell<double>("double", "-0.25", -0.25, true);
+  predicate_cell<double>("double", "DBL_EPSILON", DBL_EPSILON, true);
+  predicate_cell<double>("double", "DBL_MIN", DBL_MIN, true);
+  predicate_cell<double>("double", "4.9e-324 (denormal)", 4.9406564584124654e-324, true);
+  predicate_cell<double>("double", "-4.9e-324 (denormal)", -4.9406564584124654e-324, true);
+  predicate_cell<double>("double", "1e300", 1e300, true);
+  predicate_cell<double>("double", "-1e300", -1e300, true);
+  predicate_cell<double>("double", "inf", INFINITY, true);
+  predicate_cell<double>("double", "NaN", NAN, true);
+  predicate_cell<double>("double", "1.0", 1.0, true);
+  predicate_cell<double>("double", "2^63", 9223372036854775808.0, true);
+  predicate_cell<double>("double", "0.0", 0.0, false);
+  predicate_cell<double>("double", "-0.0", -0.0, false);
+  predicate_cell<float>("float", "0.5f", 0.5f, true);
+  predicate_cell<float>("float", "-0.25f", -0.25f, true);
+  predicate_cell<float>("float", "FLT_MIN / 4 (denormal)", FLT_MIN / 4, true);
+  predicate_cell<float>("float", "FLT_MAX", FLT_MAX, true);
+  predicate_cell<float>("float", "NaN", NAN, true);
+  predicate_cell<float>("float", "0.0f", 0.0f, false);
+  predicate_cell<long double>("long-double", "0.5L", 0.5L, true);
+  predicate_cell<long double>("long-double", "1e-4000L", 1e-4000L, true);
+  predicate_cell<long double>("long-double", "0.0L", 0.0L, false);
+  predicate_cell<__int128>("int128", "(__int128)1 << 64", (__int128)1 << 64, true);
+  predicate_cell<__int128>("int128", "(__int128)1 << 100", (__int128)1 << 100, true);
+  predicate_cell<__int128>("int128", "-((__int128)1 << 64)", -((__int128)1 << 64), true);
+  predicate_cell<__int128>("int128", "(__int128)0", (__int128)0, false);
+  predicate_cell<unsigned __int128>("uint128", "(unsigned __int128)1 << 127", (unsigned __int128)1 << 127, true);
+  predicate_cell<int64_t>("int64", "1LL << 32", (int64_t)1 << 32, true);
+  predicate_cell<int64_t>("int64", "INT64_MIN", INT64_MIN, true);
+  predicate_cell<int64_t>("int64", "0", 0, false);
+  predicate_cell<uint64_t>("uint64", "1ULL << 63", (uint64_t)1 << 63, true);
+  predicate_cell<uint64_t>("uint64", "0x100000000", 0x100000000ULL, true);
+  predicate_cell<int>("int", "-1", -1, true);
+  predicate_cell<int>("int", "256", 256, true);
+  predicate_cell<int>("int", "0", 0, false);
+  predicate_cell<unsigned>("unsigned", "0x80000000u", 0x80000000u, true);
+  predicate_cell<short>("short", "-32768", (short)-32768, true);
+  predicate_cell<char>("char", "'a'", 'a', true);
+  predicate_cell<char>("char", "'\\0'", '\0', false);
+  predicate_cell<unsigned char>("uchar", "0x80", (unsigned char)0x80, true);
+  predicate_cell<bool>("bool", "true", true, true);
+  predicate_cell<bool>("bool", "false", false, false);
+  // pointer, C-string and function-pointer predicates live in c19_exotic.cc (-DC19_EXOTIC_PTRPRED, optional build): a
+  // header that routes the predicate through an integer type does not compile for them, and that must not take this TU down.
+  predicate_cell<PlainEnum>("enum", "PE_TWO", PE_TWO, true);
+  predicate_cell<PlainEnum>("enum", "PE_BIG", PE_BIG, true);
+  predicate_cell<PlainEnum>("enum", "PE_ZERO", PE_ZERO, false);
+  predicate_cell<ImplicitBool>("implicit-bool-class", "engaged", ImplicitBool{true}, true);
+  predicate_cell<ImplicitBool>("implicit-bool-class", "disengaged", ImplicitBool{false}, false);
 }
 
 // --------------------------------------------------------------------------------------------------------
@@ -600,6 +800,8 @@ int main(int argc, char** argv) {
   if (only.empty() || only == "relations") relations_suite();
   if (only.empty() || only == "shapes") shapes_suite();
   if (only.empty() || only == "bigline") bigline_suite();
+  if (only.empty() || only == "sideeffects") sideeffects_suite();
+  if (only.empty() || only == "predicates") predicates_suite();
   if (only.empty() || only == "raises") raises_suite();
   c.count("cells_total", c.shard == 0 ? cell_idx : 0);
   c.count("reps_per_cell", c.shard == 0 ? (uint64_t)REPS : 0);
